@@ -279,4 +279,62 @@ theorem next_at_ifend (c : List Nat) (q : Nat) (hn : c.length + 16 < 4294967296)
       show q + 1 < q + 4 by omega, show q + 1 + 1 < q + 4 by omega, show q + 1 + 1 + 1 < q + 4 by omega]
   rw [s6, s7, s8, s9]
 
+
+/-- `<else ` + `/>` at `q` (as printed: `<else />`) -/
+theorem next_at_else (c : List Nat) (q : Nat) (hn : c.length + 16 < 4294967296)
+    (h0 : c[q]? = some 60) (h1 : c[q + 1]? = some 101) (h2 : c[q + 2]? = some 108)
+    (h3 : c[q + 3]? = some 115) (h4 : c[q + 4]? = some 101) (h6 : c[q + 6]? = some 47) :
+    next c q = .ok (q + 5, 11) := by
+  have hlt : q < c.length := (List.getElem?_eq_some_iff.mp h0).1
+  have hlt2 : q + 2 < c.length := (List.getElem?_eq_some_iff.mp h2).1
+  have hlt4 : q + 4 < c.length := (List.getElem?_eq_some_iff.mp h4).1
+  have hlt6 : q + 6 < c.length := (List.getElem?_eq_some_iff.mp h6).1
+  have e2 : c[q + 2] = 108 := by have := List.getElem?_eq_getElem hlt2; rw [h2] at this; exact (Option.some.inj this).symm
+  have e4 : c[q + 4] = 101 := by have := List.getElem?_eq_getElem hlt4; rw [h4] at this; exact (Option.some.inj this).symm
+  have e6 : c[q + 6] = 47 := by have := List.getElem?_eq_getElem hlt6; rw [h6] at this; exact (Option.some.inj this).symm
+  unfold next
+  have : c.length + 1 - q = (c.length - q) + 1 := by omega
+  rw [this]
+  simp only [nextF, hlt, if_true, rd_some c q 60 h0, bind, Except.bind]
+  have hid : firstCharID 60 = 1 := by decide
+  have hg : W1.groups.getD 1 [] = [6, 7, 8, 9, 10] := by decide
+  have hfc : (1 : Nat) < W1.firstCharsCount := by decide
+  have h32 : (2 : Nat) ^ sizeTBits = 4294967296 := by decide
+  simp only [hid, hfc, if_true, hg]
+  have s6 : tryWords c (q + 1) (6 :: [7, 8, 9, 10]) = tryWords c (q + 1) [7, 8, 9, 10] := by
+    apply tryWords_skip
+    have hwl : W1.wordLengths.getD 6 0 = 3 := by decide
+    have hwd : W1.words.getD 6 [] = [108, 111, 111, 112] := by decide
+    simp only [hwl, hwd, h32, show (q + 1 + 3) % 4294967296 = q + 4 by omega]
+    intro _ he; rw [e4] at he; simp at he
+  have s7 : tryWords c (q + 1) (7 :: [8, 9, 10]) = tryWords c (q + 1) [8, 9, 10] := by
+    apply tryWords_skip
+    have hwl : W1.wordLengths.getD 7 0 = 5 := by decide
+    have hwd : W1.words.getD 7 [] = [47, 108, 111, 111, 112, 62] := by decide
+    simp only [hwl, hwd, h32, show (q + 1 + 5) % 4294967296 = q + 6 by omega]
+    intro _ he; rw [e6] at he; simp at he
+  have s8 : tryWords c (q + 1) (8 :: [9, 10]) = tryWords c (q + 1) [9, 10] := by
+    apply tryWords_skip
+    have hwl : W1.wordLengths.getD 8 0 = 1 := by decide
+    have hwd : W1.words.getD 8 [] = [105, 102] := by decide
+    simp only [hwl, hwd, h32, show (q + 1 + 1) % 4294967296 = q + 2 by omega]
+    intro _ he; rw [e2] at he; simp at he
+  have s9 : tryWords c (q + 1) (9 :: [10]) = tryWords c (q + 1) [10] := by
+    apply tryWords_skip
+    have hwl : W1.wordLengths.getD 9 0 = 3 := by decide
+    have hwd : W1.words.getD 9 [] = [47, 105, 102, 62] := by decide
+    simp only [hwl, hwd, h32, show (q + 1 + 3) % 4294967296 = q + 4 by omega]
+    intro _ he; rw [e4] at he; simp at he
+  have s10 : tryWords c (q + 1) (10 :: []) = .ok (some (q + 5, 11)) := by
+    have hwl : W1.wordLengths.getD 10 0 = 3 := by decide
+    have hwd : W1.words.getD 10 [] = [101, 108, 115, 101] := by decide
+    have := tryWords_hit c (q + 1) 10 []
+    simp only [hwl, hwd, h32, show (q + 1 + 3) % 4294967296 = q + 4 by omega] at this
+    apply this hlt4 (by rw [e4]; rfl)
+    have h2' : c[q + 1 + 1]? = some 108 := by rw [show q + 1 + 1 = q + 2 by omega]; exact h2
+    have h3' : c[q + 1 + 1 + 1]? = some 115 := by rw [show q + 1 + 1 + 1 = q + 3 by omega]; exact h3
+    simp [matchMiddle, rd_some c (q + 1) 101 h1, rd_some c _ 108 h2', rd_some c _ 115 h3', bind, Except.bind,
+      show q + 1 < q + 4 by omega, show q + 1 + 1 < q + 4 by omega, show q + 1 + 1 + 1 < q + 4 by omega]
+  rw [s6, s7, s8, s9, s10]
+
 end Qentem.Tmpl
